@@ -22,7 +22,9 @@ def short(msg, n=150):
     return (msg[:n] + '...') if len(msg) > n else msg
 
 mut = parse('/verif/mutants/results-mutants-final.txt')
-seed = parse('/verif/mutants/results-seeded-final.txt')
+seed = parse('/verif/mutants/results-seeded-round3.txt')
+for k, v in parse('/verif/mutants/results-seeded-final.txt').items():
+    seed[k] = v  # the final sweep supersedes earlier runs
 
 out = []
 out.append("## Appendix D. Sensitivity results: own mutants and independently seeded changes\n")
@@ -52,8 +54,8 @@ out.append(f"{n_caught} of {n_mut} mutants are reported by at least one check. T
 out.append("Mutants that were first **missed** and led to a stronger generator or oracle (then re-run): `c14-ownership-compare-former-too` (the ownership-transfer message now varies its code-id fields), `c13-accept-two-dangling` (router worlds now donate to the router, so a disconnected hop can execute), `c13-last-hop-drops-recipient-on-long-routes` (written after `c13-intermediate-hop-carries-to` proved equivalent).\n")
 
 # ---- seeded -----------------------------------------------------------------------------------------
-out.append("### D.2 Independently seeded changes (`seeded/<ID>/`: two per property)\n")
-out.append("Each change was produced by a fresh sub-agent that was given only the text of one property and its own scratch git worktree of `/repo` (nothing from `/verif`), and asked for a change that breaks the property, still compiles, keeps the existing 101 tests green and needs something specific to manifest, plus a demonstration test. Round 2 agents were additionally told in one line what the round-1 change for the same property was, and asked for something materially different. Every change was confirmed by `seeded/verify.sh` (demonstration passes on the clean tree, fails with the patch; the 101 existing tests pass with the patch alone) before it was kept.\n")
+out.append("### D.2 Independently seeded changes (`seeded/<ID>/`, `<ID>b`, `<ID>c`: two per property, three for six of them)\n")
+out.append("Each change was produced by a fresh sub-agent that was given only the text of one property and its own scratch git worktree of `/repo` (nothing from `/verif`), and asked for a change that breaks the property, still compiles, keeps the existing 101 tests green and needs something specific to manifest, plus a demonstration test. Round 2 (`<ID>b`) and round 3 (`<ID>c`) agents were additionally told in one line each what the earlier changes for the same property were, and asked for something materially different. Every change was confirmed by `seeded/verify.sh` (demonstration passes on the clean tree, fails with the patch; the 101 existing tests pass with the patch alone) before it was kept.\n")
 out.append("| Seeded change | What it needs to manifest | Reported by (time) | Also run, not reporting it | Note |")
 out.append("|---|---|---|---|---|")
 ids = sorted(d for d in os.listdir('/verif/seeded') if os.path.isdir(f'/verif/seeded/{d}'))
